@@ -32,19 +32,22 @@ PROPS = {
     "C03": P("exploration",
              "seeded plans as C01, judged on REPAIR: destination lost (must equal the fragment encode produced, all bytes), destination delivered (returned unchanged), destination out of range (refused)",
              (60000, 40), (600000, 600), [ISAL_ASSUME],
-             expect_probes=["repair.dest-missing", "repair.dest-available", "repair.dest-out-of-range.refused"]),
+             expect_probes=["repair.dest-missing", "repair.dest-available", "repair.dest-out-of-range.refused"],
+             extra_flavours={"quick": {"plain": (6000, 12)}, "thorough": {"plain": (60000, 120)}}),
     "C05": P("fault_enumeration",
              "enumeration by run index of the 24191 (table, erasure set |E|<hd) pairs of the 38 flat-XOR tables through a seed-keyed permutation, each pair on both kernel flavours (run indexes 2j, 2j+1), after a stratified head touching every table and every erasure size; "
              "both tiers cover all 48458 (pair, flavour) cells (24191 non-empty erasure sets + the 38 empty ones, x 2 flavours) (thorough several times with other data), each with random payload length, GET and REPAIR of every lost index; every 12th index pair sweeps a slice of the (k,m,hd) box 0..33 x 0..8 x 0..7 for refusal of unsupported shapes; "
              "parity payloads compared with golden equations after every PUT",
              (56000, 45), (240000, 600), [],
              expect_probes=["get.within-tolerance", "repair.dest-missing"],
-             cells_total={"xor": 2 * 24229, "box": 34 * 9 * 8}),
+             cells_total={"xor": 2 * 24229, "box": 34 * 9 * 8},
+             extra_flavours={"quick": {"plain": (12000, 12)}, "thorough": {"plain": (100000, 120)}}),
     "C06": P("exploration",
              "seeded plans: one instance (rs_vand / isa_l / each flat-XOR table by run index), 8-30 fragments_needed queries with disjoint (rebuild, unreachable) lists within and beyond tolerance in random order, "
              "input lists right-aligned against a guard page, output pre-poisoned; half the answers are confirmed by reconstructing from the answer alone",
              (30000, 40), (300000, 600), [ISAL_ASSUME],
-             expect_probes=["plan.within", "plan.beyond", "plan.confirmed"]),
+             expect_probes=["plan.within", "plan.beyond", "plan.confirmed"],
+             extra_flavours={"quick": {"plain": (8000, 12)}, "thorough": {"plain": (80000, 120)}}),
     "C09": P("fault_enumeration",
              "seeded plans: stored fragment headers damaged by single-bit flips (bit = run index mod 640: all 640 swept), byte overwrites, bursts, torn prefixes, version/magic rewrites with and without re-sealing, "
              "legacy-CRC seal, foreign-endian rewrite; judged through get_fragment_metadata, decode and reconstruct against the reference acceptance predicate",
